@@ -18,6 +18,12 @@ def globalIndexingOps : List String :=
 `GlobalSlotRecycler::visit_closure` makes this theorem fail to check. -/
 theorem scan_complete : ∀ op ∈ globalIndexingOps, op ∈ recyclerScanOps := by decide
 
+/-- The model's `recycleLoop` iterates to a fixed point (`recycle_safe` below is about that loop); this obligation
+ties it to the source: it stops checking when `GlobalSlotRecycler::recycle` no longer re-walks the values of
+newly live shadowed slots until nothing changes (a single extra pass frees a slot that is reachable through a
+chain of three shadowed bindings). -/
+theorem gen_recycler_fixpoint : recyclerIteratesToFixpoint = true := by decide
+
 /-! ## `SymbolMap::add` / `get` -/
 
 theorem find_mapInsert (map : List (Name × Nat)) (n n' : Name) (i : Nat) :
